@@ -644,12 +644,13 @@ class TV:
 
     def passes_through(self, state):
         """a state whose behaviour does not depend on the current symbol: a condition point, or one whose transitions (Else included) all
-        fall through, without actions, to the same state"""
+        fall through to the same state performing the same actions"""
         n = self.nmfu
         if isinstance(state, n.DFConditionPoint):
             return True
         ts = list(state.transitions)
-        return bool(ts) and all(t.is_fallthrough and t.target is ts[0].target and not t.actions for t in ts) and any(v is n.DFTransition.Else for t in ts for v in t.on_values)
+        same = lambda a, b: len(a) == len(b) and all(x is y for x, y in zip(a, b))
+        return bool(ts) and all(t.is_fallthrough and t.target is ts[0].target and same(t.actions, ts[0].actions) for t in ts) and any(v is n.DFTransition.Else for t in ts for v in t.on_values)
 
     def end_consumable_again(self, state):
         """following only non-consuming moves from `state`, can end-of-input meet a transition that consumes it?  (then the parse cannot be
